@@ -216,7 +216,8 @@ Definition finalize_deposit (c : cfg) (s : l2state) (m : fdep) : option (l2state
 Definition withdraw (c : cfg) (s : l2state) (sender to d : bytes) (amt : Z) : option (l2state * resp) :=
   a ← resolve c sender;
   if bool_decide (to = []) then None else
-  if negb (valid_denom d && (0 <? amt)%Z) then None else
+  (* Validate: valid positive coin that fits the uint64 the L1 withdrawal hash commits to *)
+  if negb (valid_denom d && (0 <? amt)%Z && (amt <? 18446744073709551616)%Z) then None else
   b1 ← bank_send (bk s) a (modacc c) d amt;
   b2 ← bank_burn b1 (modacc c) d amt;
   base ← pairs s !! d;
